@@ -17,3 +17,9 @@ claim("C08", "stateful property-based testing (proptest histories), every instal
 claim("C09", "stateful property-based testing (proptest histories) with a harness-owned ledger clock and a clock model",
       "Random schedules of clock advances aimed at the delay boundary (-1/0/+1 s) interleaved with bypass and non-bypass rotation attempts (valid, invalid, duplicate candidates); outcomes compared with a last-success clock model.",
       "ledger timestamps are set by the harness and only move forward", "DESIGN.md §3 C09")
+claim("C10", "property-based testing (proptest) + coverage-guided fuzzing (libFuzzer) with a differential/round-trip oracle against an independent ABI codec",
+      "Structured messages are encoded by the contract codec and by an independent head/tail ABI encoder and compared byte for byte, then round-tripped; random and mutated byte strings must be accepted iff an independent strict canonical decoder accepts them, decode to the same message and re-encode to the input, without panics. Thorough adds a libFuzzer campaign (16 jobs) with the same oracle inside the target. Sampled/fuzzed: finds violations, cannot show absence.",
+      "native 64-bit build; the one known dependency panic (known_findings.json) is tolerated by exact signature so the search continues", "DESIGN.md §3 C10")
+claim("C13", "property-based testing (proptest) with an independent Keccak-256 and exact event-shape oracle",
+      "Random senders (accounts with exact / missing / mismatching authorisation, contracts calling as themselves or naming others), destination strings and payloads around the Keccak rate up to 64 KiB; the single announcement event is compared field by field with independently computed values, gateway state must be unchanged, unauthorised calls must leave the ledger identical.",
+      "host authorisation framework trusted; mock account contracts registered by mock_auths are set up before the snapshot", "DESIGN.md §3 C13")
